@@ -323,6 +323,52 @@ pub fn sites(tier: Tier) -> Vec<Site> {
                 }
             }));
     }
+    // (f) MSO frames whose TextStart may fall inside a code-page marker or a double-byte character
+    {
+        const A: [u8; 8] = [b'a', b'^', b'E', b'J', 0xec, 0x83, 0x9f, 0];
+        let thorough = tier == Tier::Thorough;
+        // length 4: all 8^4 texts; length 8: all 8^8 (thorough) or the first 6 bytes free + "a\0" (quick)
+        let n4: u64 = 8u64.pow(4) * 5;
+        let n8: u64 = if thorough { 8u64.pow(8) * 9 } else { 8u64.pow(6) * 9 };
+        sites.push(Site::new("mso-marker-corpus", (n4 + n8) * 2,
+            "MSO frames with every message of length 4 (and 8) over {a ^ E J 0xEC 0x83 0x9F NUL} x every TextStart 0..=length x mode; accepted frames are re-encoded (the packet came out of the decoder: the encoder must not abort)",
+            move |i, acc| {
+                let compressed = i % 2 == 0;
+                let j = i / 2;
+                let (len, mut k, ts) = if j < n4 { (4usize, j / 5, (j % 5) as usize) } else { let q = j - n4; (8usize, q / 9, (q % 9) as usize) };
+                let free = if len == 4 { 4 } else if thorough { 8 } else { 6 };
+                let mut msg = vec![];
+                for _ in 0..free { msg.push(A[(k % 8) as usize]); k /= 8; }
+                while msg.len() < len { msg.push(if msg.len() == len - 1 { 0 } else { b'a' }); }
+                let total = 8 + len;
+                let mut f = vec![if compressed { (total / 4) as u8 } else { total as u8 }, 11, 0, 0, 1, 2, 1, ts as u8];
+                f.extend_from_slice(&msg);
+                let codec = Codec::new(mode_of(compressed));
+                let mut buf = BytesMut::from(&f[..]);
+                acc.eval();
+                let m = if compressed { "compressed" } else { "uncompressed" };
+                let replay = json!({"site": "mso-marker-corpus", "index": i, "frame": hex(&f), "mode": m});
+                let p = match guard(|| codec.decode(&mut buf)) {
+                    Ok(Ok(Some(p))) => p,
+                    Ok(_) => { acc.class("not-accepted"); return; },
+                    Err(msg) => { acc.violate(i, "C03|MSO|decode-panics".into(), format!("MSO frame {} [{m}]: decoder panicked: {msg}", hex(&f)), replay); return; },
+                };
+                match guard(|| codec.encode(&p)) {
+                    Err(msg) => {
+                        acc.class("encode-panic");
+                        acc.violate(i, "C03|MSO|encode-panics-on-decoded-packet".into(),
+                            format!("MSO frame {} [{m}] is accepted by the decoder, but re-encoding the packet panics: {msg}", hex(&f)), replay);
+                    },
+                    Ok(Err(_)) => acc.class("encode-refused"),
+                    Ok(Ok(bytes)) => {
+                        acc.class("encoded");
+                        acc.key(h64(&bytes) ^ compressed as u64);
+                        let pr = wellformed(compressed, &bytes, "Mso", None);
+                        record(acc, i, "MSO", pr, &format!("MSO {} [{m}]", hex(&f)), &replay);
+                    },
+                }
+            }));
+    }
     let _ = Packet::default();
     sites
 }
